@@ -296,9 +296,9 @@ class PotentialElectrode(BaseElectrode):
             "Potential Electrodes": self.uid,
         }
 
-        self._current_electrodes = current_electrodes
         self.metadata = metadata
         current_electrodes.metadata = metadata
+        self._current_electrodes = current_electrodes
 
         if isinstance(current_electrodes.ab_cell_id, ReferencedData) and isinstance(
             self.ab_cell_id, ReferencedData
@@ -378,9 +378,9 @@ class CurrentElectrode(BaseElectrode):
             "Potential Electrodes": potential_electrodes.uid,
         }
 
-        self._potential_electrodes = potential_electrodes
         self.metadata = metadata
         potential_electrodes.metadata = metadata
+        self._potential_electrodes = potential_electrodes
 
         if isinstance(potential_electrodes.ab_cell_id, ReferencedData) and isinstance(
             self.ab_cell_id, ReferencedData
